@@ -98,7 +98,7 @@ def r2(ctx: Ctx) -> None:
         ctx.check(ok, g, g.node, "convert_to_tick_level: buy -> lower, sell -> upper", "floor for buys, ceil for sells", f"is_buy={side} -> {short(r)}")
 
 
-@rule("C19.R3", "rounding happens before the order is numbered, inserted and logged", "T5 ordering", floor=1)
+@rule("C19.R3", "rounding happens before quotes are refreshed and the order is logged (that it precedes insertion into the heap is C02.R3)", "T5 ordering", floor=1)
 def r3(ctx: Ctx) -> None:
     f = ctx.func(ADD)
     n = 0
@@ -110,7 +110,9 @@ def r3(ctx: Ctx) -> None:
             continue
         n += 1
         i = p.events.index(st[0])
-        later = [e for e in p.events[i + 1:] if e.kind == "call" and (calls_target(e, "OrderBook.add") or (e.site.how == "ctor" and e.name == "OrderLog"))]
-        earlier = [e for e in p.events[:i] if (e.kind == "call" and (calls_target(e, "OrderBook.add") or (e.site.how == "ctor" and e.name == "OrderLog"))) or (e.kind == "store" and e.attr == "order_id")]
-        ctx.check(len(later) == 2 and not earlier, f, st[0].node, "the rewritten price is what enters the book and the record", "rewrite < order_id < book.add < OrderLog", f"{len(later)} later / {len(earlier)} earlier uses")
+        def uses(e: Event) -> bool:
+            return e.kind == "call" and (calls_target(e, "Market._update_market_price") or (e.site.how == "ctor" and e.name == "OrderLog"))
+        later = [e for e in p.events[i + 1:] if uses(e)]
+        earlier = [e for e in p.events[:i] if uses(e)]
+        ctx.check(len(later) == 2 and not earlier, f, st[0].node, "the rewritten price is what the quotes and the record are computed from", "rewrite < _update_market_price < OrderLog", f"{len(later)} later / {len(earlier)} earlier uses")
     ctx.require(n >= 2, f"{ADD}: rounding paths not found")
